@@ -37,6 +37,7 @@ var builtins = map[string]sig{
 	"Dec.RoundInt":                   {nil, "SInt", true, "Dec.roundInt"},
 	mathPkg + ".LegacyNewDecFromInt": {[]string{"SInt"}, "Dec", false, "Dec.ofInt"},
 	mathPkg + ".ZeroInt":             {nil, "SInt", false, "0"},
+	mathPkg + ".OneInt":              {nil, "SInt", false, "1"},
 	sdkTypes + ".NewCoin":            {[]string{"String", "SInt"}, "Coin", true, "newCoin"},
 	"strings.ToLower":                {[]string{"String"}, "String", false, ".toLower"},
 }
